@@ -123,6 +123,13 @@ def local_families():
           lambda: _WithList(vo.ThresholdOpenList(quota_function='droop', quota_fraction=Fraction(1, 2), accept_equal=True,
                                                  list_precedence=True))),
         F('openlist_tiebreaker_plurality', 'simple', lambda: _WithList(vo.ListOrderTieBreaker(vc.Plurality()))),
+        # the tie-breaking wrapper around a distributor / a selector: a Tie key holding SEVERAL seats must be put to the tiebreaker for
+        # all of them (laws of the wrapper itself: C14, collectSel_count / tieBreaking laws)
+        F('tiebreaking_ha_input_order', 'simple', lambda: vc.TieBreaking(vp.HighestAverages('d_hondt'), vx.InputOrderSelector()),
+          kind='dist'),
+        F('tiebreaking_lr_hare_input_order', 'simple', lambda: vc.TieBreaking(vp.LargestRemainder('hare'), vx.InputOrderSelector()),
+          kind='dist'),
+        F('tiebreaking_plurality_input_order', 'simple', lambda: vc.TieBreaking(vc.Plurality(), vx.InputOrderSelector())),
         F('aux_input_order', 'simple', lambda: vx.InputOrderSelector()),
         F('aux_sortitor', 'simple', lambda: vx.Sortitor(seed=1)),
         F('aux_random_ballot', 'simple', lambda: vx.RandomUnrankedBallotSelector(seed=1), small_weights=True),
